@@ -233,6 +233,70 @@ fn guard_vs_reload(rep: &mut Report, rounds: usize) {
     }
 }
 
+/// Readers that keep taking short guards while values are replaced: whatever a
+/// guard reaches must be alive (not yet dropped) and complete.
+fn guards_during_reload_stream(rep: &mut Report, rounds: usize, reloads: u64) {
+    for round in 0..rounds {
+        rep.eval();
+        let mark = ledger::mark();
+        let dd0 = ledger::double_drops();
+        let mem = Mem::new("c13s", Hot::Yes);
+        mem.set_logging(false);
+        mem.write("b", "big", b"0");
+        let cache: &'static AssetCache<Mem> = Box::leak(Box::new(AssetCache::with_source(mem.clone())));
+        cache.enhance_hot_reloading();
+        let h = cache.load::<Big>("b").expect("load big");
+        let stop = AtomicBool::new(false);
+        let bad: std::sync::Mutex<Option<String>> = std::sync::Mutex::new(None);
+        let guards = std::sync::atomic::AtomicU64::new(0);
+        std::thread::scope(|s| {
+            for _ in 0..if cfg!(miri) { 1 } else { 3 } {
+                s.spawn(|| {
+                    while !stop.load(SeqCst) {
+                        let g = h.read();
+                        let r = g.check();
+                        std::hint::spin_loop();
+                        let r2 = g.check();
+                        guards.fetch_add(1, SeqCst);
+                        if r.is_err() || r2 != r {
+                            *bad.lock().unwrap() = Some(format!("under a live guard: first look {r:?}, second look {r2:?}"));
+                            break;
+                        }
+                    }
+                });
+            }
+            for g in 1..=reloads {
+                mem.write("b", "big", g.to_string().as_bytes());
+                mem.notify_file("b", "big");
+                if g % 16 == 0 {
+                    let sent = mem.sent();
+                    let _ = crate::util::wait_until(120_000, || cache.verif_events_handled().is_some_and(|n| n >= sent));
+                }
+            }
+            let sent = mem.sent();
+            let _ = crate::util::wait_until(if cfg!(miri) { 600_000 } else { 120_000 }, || {
+                cache.verif_events_handled().is_some_and(|n| n >= sent)
+            });
+            stop.store(true, SeqCst);
+        });
+        let scen = json!({"kind": "guards during a reload stream", "round": round, "reloads": reloads});
+        if let Some(b) = bad.into_inner().unwrap() {
+            rep.violation("guard-reaches-dropped-value", "C13/dropped-under-guard", json!(b), scen.clone());
+        }
+        let live = ledger::live_since(mark);
+        if live.len() != 1 || ledger::double_drops() != dd0 {
+            rep.violation(
+                "stream-ledger",
+                "C13/ledger-imbalance",
+                json!({"live_tokens": live.len(), "double_drops": ledger::double_drops() - dd0, "values_created": ledger::created_since(mark)}),
+                scen.clone(),
+            );
+        }
+        rep.count("guards_taken_during_reload_streams", guards.into_inner());
+        rep.nontrivial(mix(0x57e, round as u64));
+    }
+}
+
 /// All (stored type, requested type) pairs through every type-erased view.
 fn downcasts(rep: &mut Report) {
     use assets_manager::AnyCache;
@@ -336,6 +400,7 @@ fn allocator_bracket(rep: &mut Report, rng: &mut Rng, rounds: usize) {
         if round == 0 {
             c02::run_history(&mut scratch, "C13", Front::LocalDirect, &tree, &ops, &[], false);
         }
+        CTX.release_memory();
         let before = al::snapshot();
         {
             let mut inner = Report::new(&rep.args);
@@ -346,6 +411,7 @@ fn allocator_bracket(rep: &mut Report, rng: &mut Rng, rounds: usize) {
             }
             drop(inner);
         }
+        CTX.release_memory();
         let after = al::snapshot();
         if after.blocks != before.blocks || after.bytes != before.bytes {
             rep.violation(
@@ -429,6 +495,7 @@ pub fn run(args: &Args) -> Report {
 
     // (c)
     guard_vs_reload(&mut rep, if miri { 1 } else { args.n(10, 40) });
+    guards_during_reload_stream(&mut rep, if miri { 1 } else { args.n(6, 40) }, if miri { 3 } else { 400 });
     // (d)
     let rounds = if miri { 4 } else { args.n(600, 20_000) };
     let contended = insertion_races(&mut rep, &mut rng, rounds);
